@@ -182,6 +182,8 @@ func (o Out) diff(w Out, withDel bool) string {
 	switch {
 	case o.Receipts != w.Receipts:
 		return "receipts"
+	case strings.HasPrefix(o.Pre, "ERR") != strings.HasPrefix(w.Pre, "ERR"):
+		return "block-verdict"
 	case o.Root != w.Root:
 		return "state-root"
 	case o.StateKV != w.StateKV:
@@ -414,9 +416,11 @@ func main() {
 		}
 		run(envOff, "mvcc-off")
 		envOff.P.Close()
+		memTree(envOff.MVCC)
 	} else {
 		run(envOn, "mvcc-off")
 		envOn.P.Close()
+		memTree(false)
 	}
 	sizesMu.Lock()
 	for n, c := range allSize {
@@ -427,6 +431,27 @@ func main() {
 	}
 	sizesMu.Unlock()
 	r.Finish()
+}
+
+// memTree runs the third configuration: mavl's process-global node cache on (a cache that outlives
+// nodes and blocks: process history by construction).
+func memTree(bool) {
+	env, err := lidx.NewEnv(lidx.Options{NoMVCC: true, Extra: func(s string) string {
+		return strings.Replace(s, "[store.sub.mavl]\n", "[store.sub.mavl]\nenableMemTree=true\nenableMemVal=true\ntkCloseCacheLen=100\n", 1)
+	}})
+	if err != nil {
+		fmt.Println("HARNESS-ERROR", err)
+		r.Note("harness error: %v", err)
+		r.Finish()
+	}
+	sub := types.ConfSub(env.Cfg, "mavl")
+	if sub == nil || !sub.IsEnable("enableMemTree") {
+		r.Note("the mem-tree configuration edit did not take; configuration skipped")
+		env.P.Close()
+		return
+	}
+	run(env, "mvcc-off+memtree")
+	env.P.Close()
 }
 
 type world struct {
@@ -802,6 +827,8 @@ func explain(o, w Out, part string) string {
 		return fmt.Sprintf(" (%x vs %x)", o.Root, w.Root)
 	case "state-write-set":
 		a, b = o.StateKV, w.StateKV
+	case "block-verdict":
+		return fmt.Sprintf(" (%q vs %q)", clip(o.Pre), clip(w.Pre))
 	case "block-detail":
 		a, b = o.Pre, w.Pre
 		if strings.HasPrefix(a, "ERR") || strings.HasPrefix(b, "ERR") {
